@@ -28,6 +28,9 @@ try:
         name = f"seeded_{pid.lower()}_{var.lower()}"
         shutil.copy(f"{seed}/demo.rs", f"{wt}/tests/{name}.rs")
         cmd = f"cargo test --offline -j 8 --test {name}"
+    # A demonstration may need the verification cfg (hooks); the pinned suite below never gets it.
+    if os.environ.get("CONFIRM_DEMO_RUSTFLAGS"):
+        cmd = f'RUSTFLAGS="{os.environ["CONFIRM_DEMO_RUSTFLAGS"]}" ' + cmd
     res["demo_cmd"] = cmd
     rc0, out0 = sh(cmd, wt)
     res["demo_without_patch_rc"] = rc0
